@@ -7,6 +7,55 @@ from __future__ import annotations
 from .minieval import Evaluator, Obj
 
 
+class NpInt(int):
+    """an integer that stands for a numpy integer scalar (a charge label read from an array of labels): arithmetic on it yields another
+    one; meeting a block of array data in arithmetic is recorded in STRONG (numpy scalars are strongly typed in promotion)"""
+
+    __slots__ = ()
+
+    def _w(r):   # noqa: N805
+        return NpInt(r) if isinstance(r, int) and not isinstance(r, bool) else r
+
+    def __add__(self, o): return NpInt._w(int.__add__(self, o))
+    def __radd__(self, o): return NpInt._w(int.__radd__(self, o))
+    def __sub__(self, o): return NpInt._w(int.__sub__(self, o))
+    def __rsub__(self, o): return NpInt._w(int.__rsub__(self, o))
+    def __mul__(self, o): return NpInt._w(int.__mul__(self, o))
+    def __rmul__(self, o): return NpInt._w(int.__rmul__(self, o))
+    def __mod__(self, o): return NpInt._w(int.__mod__(self, o))
+    def __rmod__(self, o): return NpInt._w(int.__rmod__(self, o))
+    def __floordiv__(self, o): return NpInt._w(int.__floordiv__(self, o))
+    def __rfloordiv__(self, o): return NpInt._w(int.__rfloordiv__(self, o))
+    def __pow__(self, o, m=None): return NpInt._w(int.__pow__(self, o) if m is None else int.__pow__(self, o, m))
+    def __rpow__(self, o): return NpInt._w(int.__rpow__(self, o))
+    def __neg__(self): return NpInt(int.__neg__(self))
+    def __pos__(self): return self
+    def __abs__(self): return NpInt(int.__abs__(self))
+    def __and__(self, o): return NpInt._w(int.__and__(self, o))
+    def __rand__(self, o): return NpInt._w(int.__rand__(self, o))
+    def __or__(self, o): return NpInt._w(int.__or__(self, o))
+    def __ror__(self, o): return NpInt._w(int.__ror__(self, o))
+    def __xor__(self, o): return NpInt._w(int.__xor__(self, o))
+    def __rxor__(self, o): return NpInt._w(int.__rxor__(self, o))
+
+
+STRONG = None   # a list while R20.5 records: (operator, (function, file, line))
+
+
+def _note_strong(o, op):
+    if STRONG is not None and isinstance(o, NpInt):
+        from .minieval import HERE
+
+        STRONG.append((op, HERE[0]))
+
+
+def _unit(o):
+    """+1 / -1 when `o` is the plain number 1 / -1 (int, float or bool True), else 0"""
+    if isinstance(o, (int, float)) and not isinstance(o, bool) and o in (1, -1):
+        return int(o)
+    return 0
+
+
 class Tok:
     """opaque block value: a term over named leaves"""
 
@@ -14,6 +63,10 @@ class Tok:
         self.term = term
 
     def _bin(self, op, o, rev=False):
+        _note_strong(o, op)
+        if _unit(o) and (op == "mul" or (op == "div" and not rev)):
+            # t * 1 = t / 1 = t ; t * -1 = t / -1 = -t  (a sign written as a factor, e.g. (-1) ** parity * block)
+            return self if _unit(o) > 0 else -self
         ot = o.term if isinstance(o, Tok) else ("const", repr(o))
         return Tok((op, ot, self.term) if rev else (op, self.term, ot))
 
@@ -332,6 +385,9 @@ class STok:
         return None
 
     def _bin(self, op, o, rev=False):
+        _note_strong(o, op)
+        if _unit(o) and (op == "mul" or (op == "div" and not rev)):
+            return self if _unit(o) > 0 else -self
         ot = getattr(o, "term", ("const", repr(o)))
         st, flip = self.term, False
         if op in ("mul", "div"):
@@ -356,11 +412,13 @@ class STok:
             if o.shape != self.shape:
                 raise ValueError(f"adding abstract blocks of shapes {self.shape} and {o.shape}")
             return STok(sum_term([self.term, o.term]), self.shape)
+        _note_strong(o, "add")
         if o == 0:
             return self
         return self._bin("add", o)
 
     def __radd__(self, o):
+        _note_strong(o, "add")
         if o == 0:
             return self
         return self._bin("add", o, True)
@@ -372,6 +430,7 @@ class STok:
         return self._bin("div", o)
 
     def __pow__(self, e):
+        _note_strong(e, "pow")
         return STok(("pow", self.term, e), self.shape)
 
     def __rsub__(self, o):
@@ -408,6 +467,7 @@ class STok:
         return self._bin("div", o, True)
 
     def __rpow__(self, o):
+        _note_strong(o, "pow")
         return STok(("pow", ("const", repr(o)), self.term), self.shape)
 
     def __neg__(self):
